@@ -427,6 +427,10 @@ def gen_emitter_case(rng, fn, stream):
              "inline_types": rng.random() < 0.5, "emit_as_kwonlyargs": rng.random() < 0.5}
         if o["function_name"] is None and (stream != "malformed" or rng.random() < 0.8):
             ir["name"] = "from_ir"
+        if ft is None and rng.random() < 0.7:
+            # the kind comes from the IR (what parse.function records for a method / classmethod)
+            ir["type"] = rng.choice(["self", "cls", "static"])
+            tags.append("type-from-ir:" + ir["type"])
         tn = o["function_name"] or ir.get("name")
         tt = o["function_type"] or ir.get("type")
         attach_body(rng, ir, tags, "function", tn, tt)
